@@ -276,12 +276,15 @@ func decayKind(t *rapid.T, label string) gen.StoreKind {
 	}
 }
 
-func decayTest(t *rapid.T, prop string, collapsing bool) {
+// decayTest: collapsing selects the store kinds (0 non-collapsing, 1 collapsing, 2 any); with sparseReads the store is
+// looked at after one step in three only (and at the end): what a read leaves behind - a cache, a sorted buffer -
+// then has to survive mutations that no other read follows.
+func decayTest(t *rapid.T, prop string, collapsing int, sparseReads bool) {
 	cl := newCase(prop)
 	var kind gen.StoreKind
 	for {
 		kind = decayKind(t, "kind")
-		if kind.Collapsing() == collapsing {
+		if collapsing == 2 || kind.Collapsing() == (collapsing == 1) {
 			break
 		}
 	}
@@ -387,12 +390,19 @@ func decayTest(t *rapid.T, prop string, collapsing bool) {
 			u.s.Clear()
 			u.m.clear()
 		}
-		if msg := u.m.compare(u.s); msg != "" {
-			t.Fatalf("%s decay %s after %s: %s", prop, kind, op, msg)
+		if !sparseReads || rapid.IntRange(0, 2).Draw(t, "read") == 0 {
+			if msg := u.m.compare(u.s); msg != "" {
+				t.Fatalf("%s decay %s after %s: %s", prop, kind, op, msg)
+			}
+		} else {
+			cl.label("decay:step-without-read")
 		}
 		if lostBins {
 			afterLoss++
 		}
+	}
+	if msg := u.m.compare(u.s); msg != "" {
+		t.Fatalf("%s decay %s at the end: %s", prop, kind, msg)
 	}
 	_ = uncollapsed
 	cl.done(lostBins && afterLoss >= 2)
@@ -408,9 +418,15 @@ func hasLevel(m *decayModel, k int) bool {
 }
 
 func TestC04_Decay(t *testing.T) {
-	rapid.Check(t, func(t *rapid.T) { decayTest(t, "C04", false) })
+	rapid.Check(t, func(t *rapid.T) { decayTest(t, "C04", 0, false) })
 }
 
 func TestC05_Decay(t *testing.T) {
-	rapid.Check(t, func(t *rapid.T) { decayTest(t, "C05", true) })
+	rapid.Check(t, func(t *rapid.T) { decayTest(t, "C05", 1, false) })
+}
+
+// TestC14_Decay: the same histories with reads after one step in three only: a read must not leave anything behind
+// that later mutations (additions, bins vanishing in a reweighting, merges) make wrong.
+func TestC14_Decay(t *testing.T) {
+	rapid.Check(t, func(t *rapid.T) { decayTest(t, "C14", 2, true) })
 }
